@@ -72,6 +72,15 @@ class Ctx:
             return self.ex.boolean(name)
         return bool(self.inputs.get(name, False))
 
+    def special(self, name, lo=None, hi=None):
+        """a float that may also be NaN or +inf (decided by two extra boolean inputs); the finite
+        case is a symbolic real.  Used for residual-norm histories."""
+        if self.boolean(name + '_isnan'):
+            return float('nan')
+        if self.boolean(name + '_isinf'):
+            return float('inf')
+        return self.real(name, lo, hi)
+
     def const(self, v):
         """exact constant (int, Fraction, 'p/q' string or float) in the mode's number type"""
         f = Fraction(v) if not isinstance(v, float) else Fraction(v)
